@@ -259,11 +259,14 @@ func (c *capTB) Skip(args ...any)                  { c.SkipNow() }
 func (c *capTB) SkipNow()                          { runtime.Goexit() }
 func (c *capTB) Errorf(format string, args ...any) { c.fail(fmt.Sprintf(format, args...)) }
 func (c *capTB) Error(args ...any)                 { c.fail(fmt.Sprint(args...)) }
-func (c *capTB) Fatalf(format string, args ...any) { c.fail(fmt.Sprintf(format, args...)); runtime.Goexit() }
-func (c *capTB) Fatal(args ...any)                 { c.fail(fmt.Sprint(args...)); runtime.Goexit() }
-func (c *capTB) FailNow()                          { c.fail(""); runtime.Goexit() }
-func (c *capTB) Fail()                             { c.fail("") }
-func (c *capTB) Failed() bool                      { c.mu.Lock(); defer c.mu.Unlock(); return c.failed }
+func (c *capTB) Fatalf(format string, args ...any) {
+	c.fail(fmt.Sprintf(format, args...))
+	runtime.Goexit()
+}
+func (c *capTB) Fatal(args ...any) { c.fail(fmt.Sprint(args...)); runtime.Goexit() }
+func (c *capTB) FailNow()          { c.fail(""); runtime.Goexit() }
+func (c *capTB) Fail()             { c.fail("") }
+func (c *capTB) Failed() bool      { c.mu.Lock(); defer c.mu.Unlock(); return c.failed }
 func (c *capTB) fail(m string) {
 	c.mu.Lock()
 	c.failed = true
@@ -551,5 +554,33 @@ func (r *Runner) writePart() {
 	_ = os.MkdirAll(r.OutDir, 0o755)
 	if err := os.WriteFile(filepath.Join(r.OutDir, fmt.Sprintf("part-%d.json", r.Shard)), b, 0o644); err != nil {
 		r.T.Errorf("HARNESS-ERROR cannot write evidence part: %v", err)
+	}
+}
+
+var hungOnce struct {
+	mu   sync.Mutex
+	hung bool
+}
+
+// WithWatchdog runs f and reports a hang as a violation when it does not return within d. After a
+// hang every later call returns a trivially passing result immediately (the stuck goroutine keeps a
+// core busy and shrinking a hang would cost d per attempt), so the reported case is the original one.
+func WithWatchdog(d time.Duration, what string, f func() Result) Result {
+	hungOnce.mu.Lock()
+	h := hungOnce.hung
+	hungOnce.mu.Unlock()
+	if h {
+		return Result{Classes: []string{"skipped-after-hang"}}
+	}
+	done := make(chan Result, 1)
+	go func() { done <- f() }()
+	select {
+	case r := <-done:
+		return r
+	case <-time.After(d):
+		hungOnce.mu.Lock()
+		hungOnce.hung = true
+		hungOnce.mu.Unlock()
+		return Fail("%s did not return within %v (hang / unbounded work)", what, d)
 	}
 }
